@@ -172,3 +172,33 @@ Proof.
   apply lookup_in in Hl. specialize (H _ Hl). simpl in H. rewrite forallb_forall in H.
   apply Nat.ltb_lt. apply H. exact Hin.
 Qed.
+
+(* ---- editing the builder between builds ---- *)
+Lemma lookup_filter_other {A} n pn (l : list (nat * A)) : Nat.eqb n pn = false ->
+  lookup n (filter (fun d => negb (Nat.eqb (fst d) pn)) l) = lookup n l.
+Proof.
+  intros Hn. induction l as [|[m y] l IH]; simpl; [reflexivity|].
+  destruct (Nat.eqb m pn) eqn:Em; simpl.
+  - destruct (Nat.eqb n m) eqn:E; [|exact IH]. apply Nat.eqb_eq in E. subst. congruence.
+  - rewrite IH. reflexivity.
+Qed.
+
+Lemma default_edit_l : forall b pn t p,
+  p_src (resolve_param (b_defaults (apply_edit b (EDefault pn t))) p) =
+    match bp_conn p with
+    | Some s => Some s
+    | None => if Nat.eqb (bp_name p) pn then Some t else lookup (bp_name p) (b_defaults b)
+    end /\
+  b_nodes (apply_edit b (EDefault pn t)) = b_nodes b /\ b_aliases (apply_edit b (EDefault pn t)) = b_aliases b.
+Proof.
+  intros b pn t p. simpl. split; [|split; reflexivity].
+  destruct (bp_conn p); [reflexivity|]. destruct (Nat.eqb (bp_name p) pn) eqn:E; [reflexivity|].
+  apply lookup_filter_other, E.
+Qed.
+
+Lemma connect_edit_l : forall pn t p,
+  bp_conn (set_conn pn t p) = (if Nat.eqb (bp_name p) pn then Some t else bp_conn p) /\
+  bp_name (set_conn pn t p) = bp_name p /\ bp_lazy (set_conn pn t p) = bp_lazy p /\
+  bp_typed (set_conn pn t p) = bp_typed p /\ bp_nullable (set_conn pn t p) = bp_nullable p /\
+  bp_ty (set_conn pn t p) = bp_ty p.
+Proof. intros pn t p. unfold set_conn. destruct (Nat.eqb (bp_name p) pn); repeat split. Qed.
